@@ -326,7 +326,7 @@ func main() {
 	// quick tier: obligations that are not claimed (contracts/unclaimed.txt) or that belong to an open known finding
 	// are generated and listed but not sent to the solvers (they are expected to fail and would only burn the budget);
 	// the thorough tier solves them as well and reports their current status
-	if *tier != "thorough" && !*solveAll {
+	{
 		unc := loadUnclaimed(*verif)
 		known := loadKnown(*verif)
 		for _, o := range obls {
@@ -345,9 +345,14 @@ func main() {
 					}
 				}
 			}
-			if skip {
+			if skip && *tier != "thorough" && !*solveAll {
 				o.Status = "not-attempted"
 				o.skipSolve = true
+			} else if skip {
+				// thorough tier: attempted once with the quick budget, without the retry strategies, to report its
+				// current status
+				o.lowEffort = true
+				o.noSplit = true
 			}
 		}
 	}
@@ -390,7 +395,11 @@ func main() {
 		go func() {
 			defer owg.Done()
 			defer func() { <-osem }()
-			discharge(o, smtDir, *timeout, which)
+			t := *timeout
+			if o.lowEffort && t > 20 {
+				t = 20
+			}
+			discharge(o, smtDir, t, which)
 		}()
 	}
 	owg.Wait()
